@@ -23,6 +23,7 @@ Open Scope nat_scope.
 (* ------------------------------------------------------------------ (i) AST and check placement *)
 Inductive instr :=
 | IOther                                   (* any instruction that is not a control transfer *)
+| ICheck                                   (* a stand-alone exit-code check (only produced by `place` with pl_entry) *)
 | IBlock (b : list instr)
 | ILoop (chk : bool) (b : list instr)      (* chk: the exit code is checked at the loop header *)
 | IIf (t e : list instr)
@@ -38,7 +39,8 @@ Record prog := { p_nimp : nat; p_funcs : list (list instr) }.
 Record placement := {
   pl_loop : bool;          (* check at loop headers *)
   pl_tail : bool;          (* check before return_call / return_call_indirect *)
-  pl_split : bool          (* return_call of an imported function is lowered as call + return (interpreter) *)
+  pl_split : bool;         (* return_call of an imported function is lowered as call + return (interpreter) *)
+  pl_entry : bool          (* check on function entry: NOT in the code now; the candidate repair of the tree-recursion finding *)
 }.
 
 Fixpoint place_i (pl : placement) (nimp : nat) (i : instr) : list instr :=
@@ -53,16 +55,20 @@ Fixpoint place_i (pl : placement) (nimp : nat) (i : instr) : list instr :=
   end.
 
 Definition place (pl : placement) (p : prog) : prog :=
-  {| p_nimp := p_nimp p; p_funcs := map (flat_map (place_i pl (p_nimp p))) (p_funcs p) |}.
+  {| p_nimp := p_nimp p;
+     p_funcs := map (fun b => (if pl_entry pl then [ICheck] else []) ++ flat_map (place_i pl (p_nimp p)) b) (p_funcs p) |}.
 
 (* the code as it is now *)
-Definition interp_now := {| pl_loop := true; pl_tail := true; pl_split := true |}.
-Definition comp_now := {| pl_loop := true; pl_tail := true; pl_split := false |}.
+Definition interp_now := {| pl_loop := true; pl_tail := true; pl_split := true; pl_entry := false |}.
+Definition comp_now := {| pl_loop := true; pl_tail := true; pl_split := false; pl_entry := false |}.
 (* before the F05 repair: loop headers only *)
-Definition interp_before_fix := {| pl_loop := true; pl_tail := false; pl_split := true |}.
-Definition comp_before_fix := {| pl_loop := true; pl_tail := false; pl_split := false |}.
+Definition interp_before_fix := {| pl_loop := true; pl_tail := false; pl_split := true; pl_entry := false |}.
+Definition comp_before_fix := {| pl_loop := true; pl_tail := false; pl_split := false; pl_entry := false |}.
+(* with the candidate repair *)
+Definition with_entry (pl : placement) : placement :=
+  {| pl_loop := pl_loop pl; pl_tail := pl_tail pl; pl_split := pl_split pl; pl_entry := true |}.
 (* close-on-context-done disabled *)
-Definition no_checks := {| pl_loop := false; pl_tail := false; pl_split := false |}.
+Definition no_checks := {| pl_loop := false; pl_tail := false; pl_split := false; pl_entry := false |}.
 
 (* ------------------------------------------------------------------ (ii) control graph *)
 Inductive edge :=
@@ -113,6 +119,7 @@ Fixpoint comp (cx : cctx) (env : list nat) (p : nat) (i : instr) {struct i} : li
   let lbl := fun l => nth l env (c_fend cx) in
   match i with
   | IOther => [mk false [ESeq (S p)]]
+  | ICheck => [mk true [ESeq (S p)]]
   | IBlock b => comp_list (comp cx ((p + szl b) :: env)) p b
   | ILoop c b => mk c [ESeq (S p)] :: comp_list (comp cx (p :: env)) (S p) b
   | IIf t e =>
@@ -184,7 +191,11 @@ Fixpoint list_beq (a b : list nat) : bool :=
 Fixpoint iter (G : graph) (fuel : nat) (r : list nat) : list nat :=
   match fuel with
   | 0 => r
-  | S k => let r' := sweep G r in if list_beq r' r then r else iter G k r'
+  | S k =>
+      let r' := sweep G r in
+      if list_beq r' r then r
+      else if existsb (fun x => length G <? x) r' then r'   (* a rank above |nodes|: there is an unchecked cycle *)
+      else iter G k r'
   end.
 
 (* the ranks grow in every sweep that is not a fixpoint and are bounded by |nodes| when there is no unchecked
@@ -211,6 +222,7 @@ Fixpoint trace (i : instr) : list nat :=
   | IBlock b => flat_map trace b
   | ILoop c b => (if c then [1] else []) ++ flat_map trace b
   | IIf t e => flat_map trace t ++ flat_map trace e
+  | ICheck => [1]
   | ICall f => [10 + 2 * f]
   | ICallIndirect => [2]
   | IReturnCall c f => (if c then [1] else []) ++ [11 + 2 * f]
@@ -245,19 +257,21 @@ Open Scope Z_scope.
 Fixpoint rejected (k : Z) (gs : list graph) : list Z :=
   match gs with [] => [] | g :: r => (if all_cycles_checked g then [] else [10 + k]) ++ rejected (k + 1) r end.
 
-(* codes: 1 interpreter placement differs from `place interp_now`; 2 compiler placement differs from
-   `place comp_now`; 3 the model's own graph is rejected (excluded by C07_insertion_complete);
+(* codes: 1 interpreter placement differs from `place interp_now` (and from the same plus entry checks, the
+   candidate repair); 2 compiler placement differs from `place comp_now` (ditto); 3 the model's own graph is rejected (excluded by C07_insertion_complete);
    10+k the k-th engine graph has a cycle without a check *)
 Definition check_scase (c : scase) : list Z :=
   (match s_prog c with
    | None => []
    | Some p =>
-       let pi := place (if s_on c then interp_now else no_checks) p in
-       let pc := place (if s_on c then comp_now else no_checks) p in
-       (if lists_beq (traces pi) (s_itrace c) then [] else [1]) ++
-       (if lists_beq (map (fun t => sort (map (norm (p_nimp p)) t)) (traces pc)) (s_ctrace c) then [] else [2]) ++
+       let pli := if s_on c then interp_now else no_checks in
+       let plc := if s_on c then comp_now else no_checks in
+       let ctr := fun pl => map (fun t => sort (map (norm (p_nimp p)) t)) (traces (place pl p)) in
+       (if lists_beq (traces (place pli p)) (s_itrace c)
+           || (s_on c && lists_beq (traces (place (with_entry pli) p)) (s_itrace c)) then [] else [1]) ++
+       (if lists_beq (ctr plc) (s_ctrace c) || (s_on c && lists_beq (ctr (with_entry plc)) (s_ctrace c)) then [] else [2]) ++
        (if s_on c then
-          (if all_cycles_checked (graph_of pi) && all_cycles_checked (graph_of pc) then [] else [3])
+          (if all_cycles_checked (graph_of (place pli p)) && all_cycles_checked (graph_of (place plc p)) then [] else [3])
         else [])
    end) ++ (if s_on c then rejected 0 (s_graphs c) else []).
 
